@@ -62,10 +62,16 @@ def r_polarity(repo, rep, R='R17.1'):
         # result = numpy.ones(length, dtype=bool); result[indices] = 0
         sets = [e for e in st.events if e[0] == 'setitem']
         calls = [e[1] for e in st.events if e[0] == 'call' and e[1][1][0] == 'attr' and e[1][1][2] in ('ones', 'zeros', 'full')]
+        flipped = False
+        if ret is not None and calls and ((ret[0] == 'unop' and ret[1] in ('~', 'not') and ret[2] == calls[0]) or (
+                ret[0] == 'call' and ret[1][0] == 'attr' and ret[1][2] in ('logical_not', 'invert') and ret[2] == (calls[0],))):
+            ret, flipped = calls[0], True           # the complement of the vector that was filled
         if len(calls) == 1 and len(sets) == 1 and sets[0][1] == calls[0] and sets[0][2] == N(idx) and ret == calls[0]:
             init_value = {'ones': True, 'zeros': False}.get(calls[0][1][2])
             v = sets[0][3]
             listed_value = bool(v[1]) if v[0] == 'const' else None
+            if flipped and init_value is not None and listed_value is not None:
+                init_value, listed_value = not init_value, not listed_value
             dt = dict(calls[0][3]).get('dtype')
             ok = calls[0][2] and calls[0][2][0] == N(ln) and dt is not None and 'bool' in show(dt)
         else:
